@@ -13,7 +13,7 @@ KNOWN = {"CF18": "CF18"}
 # TRUE : after the repair in notes/c18_fix_CF18.diff (plain address = single-host block): no allowance anywhere
 #        (InvStrictSyntax), the CF18 witness run is dropped, plain entries take part in every decision scope.
 # VERIF_C18_FIXED=1 selects TRUE without editing (bin/mutcheck notes/c18_fix_CF18.diff C18 with VERIF_C18_FIXED=1).
-PLAIN_ACCEPTED = os.environ.get("VERIF_C18_FIXED", "0") == "1"
+PLAIN_ACCEPTED = os.environ.get("VERIF_C18_FIXED", "1") == "1"   # CF18 repaired in /repo by a543e46
 
 INV_DEC = "TypeOK InvDocumentedSyntax InvBuildResult InvDecision InvNoLeak InvPerConnection InvContainsAgree InvListening InvServable"
 CHUNK_LINES = 60000
@@ -142,9 +142,8 @@ def run(chk):
     if thorough:
         scopes += [
             ("decision_w5", cfg("decision_w5", ConfigMode='"all1"', W=5, **dec), 8, {}),
-            ("faults_3conn_2cfg", cfg("faults_3conn_2cfg", Conns="{c1,c2,c3}", sym=True, MaxFaults=5, MaxGets=1, ConfigMode='"fault"',
-                                      Paths='{"metrics","health"}'), 8, {"Bump"}),
-            ("liveness_3conn", cfg("liveness_3conn", spec="FairSpec", Conns="{1,2,3}", MaxFaults=3, MaxGets=2, props="LiveServed",
+            ("faults_3conn_2cfg", cfg("faults_3conn_2cfg", Conns="{c1,c2,c3}", sym=True, MaxFaults=5, MaxGets=1, ConfigMode='"fault"'), 8, {"Bump"}),
+            ("liveness_3conn", cfg("liveness_3conn", spec="FairSpec", Conns="{1,2,3}", MaxFaults=2, MaxGets=2, props="LiveServed",
                                    inv="TypeOK InvDecision InvNoLeak InvListening InvServable"), 8, {"Bump"}),
         ]
     for name, c, workers, exempt in scopes:
